@@ -2,4 +2,7 @@ class VersionConversion:
 
   def _to_gfa1_a(self): return self.to_list()
   def _to_gfa2_a(self): return self.to_list()
-
+  # (a comment is written in the same way in both versions; the generic
+  #  methods would join content and spacer as if they were fields)
+  def to_gfa1_s(self): return str(self)
+  def to_gfa2_s(self): return str(self)
